@@ -286,7 +286,7 @@ func runNative(rep *hv.Report, r *hv.Rng, input, text string, ctx *hcl.EvalConte
 	full, _ := checkScopes(rep, r, "", input, ctx, R, func(c *hcl.EvalContext) string {
 		v, d := expr.Value(c)
 		return outcome(v, d, false)
-	})
+	}, nil)
 	resultHist(rep, kind, full)
 }
 
@@ -341,7 +341,7 @@ func runJSON(rep *hv.Report, r *hv.Rng, input, text string, tree *jnode, ctx *hc
 	full, _ := checkScopes(rep, r, "", input, ctx, R, func(c *hcl.EvalContext) string {
 		v, d := expr.Value(c)
 		return outcome(v, d, false)
-	})
+	}, nil)
 	resultHist(rep, "json", full)
 }
 
